@@ -87,10 +87,95 @@ func loaderReuseCase(col *Collector, prop, format, fault string, repaired bool) 
 
 func loaderReuseCases(col *Collector, prop string, formats []string, faults []string) {
 	for _, f := range formats {
+		for edit := 0; edit < 3; edit++ {
+			// a new Loader with a new Config: loading twice into ONE Config adds to what it holds, by design
+			reloadAfterEditCase(col, prop, f, edit, true)
+		}
 		for _, fault := range faults {
 			for _, repaired := range []bool{true, false} {
 				loaderReuseCase(col, prop, f, fault, repaired)
 			}
 		}
 	}
+}
+
+// a configuration that loads, then a file of it is edited so that it defines LESS (edit 0: an imported file loses a
+// task; 1: the main file loses a task and an import; 2: an imported file loses a task and is rewritten with the same
+// length), then it is loaded again in the same process - by the same Loader or by a new one with a new Config: the
+// second result is what the files say now.
+func reloadAfterEditCase(col *Collector, prop, format string, edit int, fresh bool) {
+	dir := newScratchDir("reedit")
+	defer os.RemoveAll(dir)
+	ext := format
+	write := func(name string, doc map[string]interface{}) {
+		text, _ := serialise(doc, format)
+		os.WriteFile(filepath.Join(dir, name+"."+ext), []byte(text), 0644)
+	}
+	task := func(cmd string) map[string]interface{} {
+		return map[string]interface{}{"command": []interface{}{cmd}}
+	}
+	write("common", map[string]interface{}{"tasks": map[string]interface{}{"fmt": task("echo fmt"), "legacy": task("echo legacy")}})
+	write("part", map[string]interface{}{"tasks": map[string]interface{}{"lint": task("echo lint"), "build": task("echo build")}})
+	write("main", map[string]interface{}{
+		"import": []interface{}{"common." + ext, "part." + ext},
+		"tasks":  map[string]interface{}{"top": task("echo top")},
+	})
+	cs := Case{Replay: fmt.Sprintf("main.%s importing common.%s and part.%s is loaded, edited (edit %d: 0 common loses task legacy, 1 main loses task top and the import of part, 2 legacy renamed to another name of the same length) and loaded again in the same process (new Loader and Config: %v)", ext, ext, ext, edit, fresh),
+		Tags: []string{"reload-after-edit", "format=" + format}, NonTrivial: true}
+	defer func() {
+		if p := recover(); p != nil {
+			cs.Fail, cs.Sig = fmt.Sprint("loader panicked: ", p), strings.ToLower(prop)+"-panic"
+			col.Add(cs)
+		}
+	}()
+	cl := verifhooks.NewConfigLoader(verifhooks.NewConfig())
+	cl.VerifSetDirs(dir, filepath.Join(dir, "nohome"))
+	mainPath := filepath.Join(dir, "main."+ext)
+	names := func(load func(string) (map[string]bool, error)) (string, error) {
+		m, err := load(mainPath)
+		var ns []string
+		for k := range m {
+			ns = append(ns, k)
+		}
+		sort.Strings(ns)
+		return strings.Join(ns, ","), err
+	}
+	loadWith := func(l *verifhooks.Loader) func(string) (map[string]bool, error) {
+		return func(p string) (map[string]bool, error) {
+			cfg, err := l.Load(p)
+			m := map[string]bool{}
+			if cfg != nil {
+				for k := range cfg.Tasks {
+					m[k] = true
+				}
+			}
+			return m, err
+		}
+	}
+	first, err1 := names(loadWith(&cl))
+	want := ""
+	switch edit {
+	case 0:
+		write("common", map[string]interface{}{"tasks": map[string]interface{}{"fmt": task("echo fmt")}})
+		want = "build,fmt,lint,top"
+	case 1:
+		write("main", map[string]interface{}{"import": []interface{}{"common." + ext}, "tasks": map[string]interface{}{"other": task("echo other")}})
+		want = "fmt,legacy,other"
+	case 2:
+		write("common", map[string]interface{}{"tasks": map[string]interface{}{"fmt": task("echo fmt"), "modern": task("echo modern")}})
+		want = "build,fmt,lint,modern,top"
+	}
+	if fresh {
+		cl = verifhooks.NewConfigLoader(verifhooks.NewConfig())
+		cl.VerifSetDirs(dir, filepath.Join(dir, "nohome"))
+	}
+	second, err2 := names(loadWith(&cl))
+	cs.Impl = fmt.Sprintf("first=%s second=%s", first, second)
+	switch {
+	case err1 != nil || first != "build,fmt,legacy,lint,top":
+		cs.Fail, cs.Sig = fmt.Sprintf("the first load gave the tasks %s (error %v), expected build,fmt,legacy,lint,top", first, err1), strings.ToLower(prop)+"-reload"
+	case err2 != nil || second != want:
+		cs.Fail, cs.Sig = fmt.Sprintf("after the edit the load gives the tasks %s (error %v); the files now define %s", second, err2, want), strings.ToLower(prop)+"-reload"
+	}
+	col.Add(cs)
 }
